@@ -445,19 +445,28 @@ def heston_ob(aspect=None):
             i = lift(state['i_step'])               # already incremented by the cut: the column written is i
             ls, zz = state['log_spot'], state['randn']
             rho, sg, ka, th, dt_ = V['rho'], V['sigma'], V['kappa'], V['theta'], V['dt']
-            half_dt = tm.mul(tm.const(0.5), dt_)
+            # weights of the quadrature of the time integral of v over the step: any gamma1, gamma2 >= 0 with gamma1 + gamma2 = 1 is a valid
+            # discretisation (Andersen 2007, Eq. 33; the source uses the trapezoid rule 1/2, 1/2); the weights are read from the function's
+            # locals when it names them and must satisfy that constraint (first lemma), otherwise the trapezoid rule is required
+            def _w(nm):
+                try:
+                    return tm.toreal(tm.as_term(lift(state[nm]))) if nm in state else tm.const(0.5)
+                except Exception:
+                    return tm.const(0.5)
+            g1, g2 = _w('GAMMA1'), _w('GAMMA2')
 
             def step(n):
                 # the exact representation  d log S = -v/2 dt + (rho/sigma)(dv - kappa(theta - v) dt) + sqrt(1-rho^2) sqrt(v) dW_perp,
-                # with the time integral of v over the step taken by the trapezoid rule (Andersen, gamma1 = gamma2 = 1/2)
+                # with the time integral of v over the step taken as I = dt (gamma1 v + gamma2 v')
                 a, b = v0_.at((n,)), v1_.at((n,))
-                intv = tm.mul(half_dt, tm.add(a, b))
+                intv = tm.mul(dt_, tm.add(tm.mul(g1, a), tm.mul(g2, b)))
                 drift = tm.add(tm.mul(tm.const(-0.5), intv), tm.mul(tm.div(rho, sg), tm.add(tm.sub(b, a), tm.neg(tm.mul(ka, th, dt_)), tm.mul(ka, intv))))
                 diff_ = tm.mul(tm.app('sqrt', tm.mul(tm.sub(tm.ONE, tm.mul(rho, rho)), intv)), zz.at((n, tm.sub(i, tm.IONE))))
                 return tm.eq(ls.at((n, i)), tm.add(ls.at((n, tm.sub(i, tm.IONE))), drift, diff_))
-            return [('k3 >= 0 and k4 >= 0 (|rho| <= 1)', tm.and_(tm.ge(tm.toreal(k3), tm.ZERO), tm.ge(tm.toreal(k4), tm.ZERO))),
+            return [(LAW + 'quadrature weights of the integrated variance: gamma1, gamma2 >= 0, gamma1 + gamma2 == 1', tm.and_(tm.ge(g1, tm.ZERO), tm.ge(g2, tm.ZERO), tm.eq(tm.add(g1, g2), tm.ONE))),
+                    ('k3 >= 0 and k4 >= 0 (|rho| <= 1)', tm.and_(tm.ge(tm.toreal(k3), tm.ZERO), tm.ge(tm.toreal(k4), tm.ZERO))),
                     ('sqrt argument k3 v0 + k4 v1 >= 0', lambda n: tm.ge(tm.add(tm.mul(tm.toreal(k3), v0_.at((n,))), tm.mul(tm.toreal(k4), v1_.at((n,)))), tm.ZERO), tm.IZERO, N),
-                    (LAW + 'one step: log S\' = log S - (1/2) I + (rho/sigma)(v\' - v - kappa theta dt + kappa I) + sqrt((1-rho^2) I) Z,  I = dt (v + v\')/2: the return loads on the variance move with rho/sigma', step, tm.IZERO, N)]
+                    (LAW + 'one step: log S\' = log S - (1/2) I + (rho/sigma)(v\' - v - kappa theta dt + kappa I) + sqrt((1-rho^2) I) Z,  I = dt (gamma1 v + gamma2 v\'): the return loads on the variance move with rho/sigma', step, tm.IZERO, N)]
         cut, info = cutloops.cut(hmod.generate_heston, {0: cutloops.LoopSpec(inv, name='for i_step', lemmas=lemmas)}, stubs={'generate_cir': cir_stub})
 
         def run(c):
